@@ -5,7 +5,7 @@ import json, os, shutil, subprocess, sys
 
 VERIF = os.path.dirname(os.path.dirname(os.path.abspath(__file__)))
 SRC = '/tmp/seedout'
-SOURCES = [('/tmp/seedout', ''), ('/tmp/seedout2', 'r2'), ('/tmp/seedout3', 'r3')]
+SOURCES = [('/tmp/seedout', ''), ('/tmp/seedout2', 'r2'), ('/tmp/seedout3', 'r3'), ('/tmp/seedout4', 'r4')]
 NEEDS = {
  'C01-m1': 'one-token sentence whose only/best route to a root category needs a unary rule',
  'C01-m2': 'lp rule made head-right: span with two derivations of one category and different heads (runs of punctuation)',
@@ -247,6 +247,89 @@ HISTORY.update({
  'C20-r3m3': 'missed at first: Japanese tokens whose surf differs from word added',
 })
 EXTRA.update({'C01-r3m3': ['C04'], 'C19-r3m3': ['C11'], 'C20-r3m3': ['C07']})
+NEEDS.update({
+ 'C01-r4m1': 'a sentence that fails with tags still queued, followed by another sentence in the same process (static tag queues)',
+ 'C01-r4m2': 'two tags of a token with exactly equal scores straddling the pruning_size cut (tie broken differently)',
+ 'C01-r4m3': 'a token whose largest dependency score is its own column (leaf outside estimate skips self arcs)',
+ 'C02-r4m1': 'a non-empty failed sentence followed by another one, consumed through iter_parse_results',
+ 'C02-r4m2': 'two consecutive same-length sentences in one process where the beam left tags behind',
+ 'C02-r4m3': 'use_beta on with beta exactly 0 and a zero-probability tag inside pruning_size',
+ 'C03-r4m1': ', ; conj followed by T/(T/X) or T\\(T\\X) (type-raised test requires opposite slashes)',
+ 'C03-r4m2': 'both inputs punctuation atoms (rp result missing)',
+ 'C03-r4m3': 'gbx with a modifier on the right (modifier test on the wrong input)',
+ 'C04-r4m1': '>Bx2 with a non-modifier primary and a secondary (B\\C)\\D: outer slash taken from the primary',
+ 'C04-r4m2': 'unary input (S[mod=adv]\\NP)\\NP labelled ADV0',
+ 'C04-r4m3': 'any >Bx3 application (symbol >Bx2)',
+ 'C05-r4m1': 'two unbracketed slashes at the top level (folded right-associatively)',
+ 'C05-r4m2': 'three-part feature with a repeated key',
+ 'C05-r4m3': 'category text with more than 64 bracket/slash characters (re flag passed as count)',
+ 'C06-r4m1': '| in the pattern facing / in the input',
+ 'C06-r4m2': 'a shared variable that occurs twice inside one pattern',
+ 'C06-r4m3': 'three-part features with different key sets at a shared position',
+ 'C07-r4m1': 'Japanese prolog with a <B4 node',
+ 'C07-r4m2': 'jigg_xml with a unary node spanning two or more words (end offset)',
+ 'C07-r4m3': 'token without lemma/pos, conll printed before another format (setdefault)',
+ 'C08-r4m1': 'a field ending in [conj] directly after an atom (NP[conj], x[conj])',
+ 'C08-r4m2': 'a token that is exactly ( or ) (reader un-escapes)',
+ 'C08-r4m3': 'derivable binary node printed with the head direction opposite to its rule',
+ 'C09-r4m1': 'unary node built from the 2nd or later unary result of its child, non-zero penalty',
+ 'C09-r4m2': '1-best: a span gets one category twice with different heads and the later has the higher inside score',
+ 'C09-r4m3': 'filter off and a returned leaf with a tag score below about -95',
+ 'C10-r4m1': 'head-left grammar, k < #derivations, right child accepted after its left sibling with a much lower best dependency',
+ 'C10-r4m2': 'head-right grammar and a token whose best dependency is the last token',
+ 'C10-r4m3': 'k = 1, >= 65 category ids, two categories congruent mod 64 over one span',
+ 'C11-r4m1': 'dependency matrix with the right number of rows but wrong columns',
+ 'C11-r4m2': 'pool path with more processes than sentences',
+ 'C11-r4m3': 'a sentence longer than 50 tokens earlier in the call and a later sentence needing a tag ranked 21st-50th',
+ 'C12-r4m1': 'unary result whose symbol is not <un> (every Japanese unary rule)',
+ 'C12-r4m2': 'pair with >= 2 results of different categories in non-ascending id order (results sorted before caching)',
+ 'C12-r4m3': 'Jigg XML read while the active grammar is Japanese (head flag dropped)',
+ 'C13-r4m1': 'functor containing | passed through clear_features',
+ 'C13-r4m2': 'functors with the same atoms and slashes in order but different bracketing',
+ 'C13-r4m3': 'functor hashed, pickled and unpickled under another PYTHONHASHSEED',
+ 'C14-r4m1': 'fa/ba call that binds [X] followed by one whose result has an unbound [X] (matcher objects reused)',
+ 'C14-r4m2': 'seen-rule set given and a right-hand category carrying [nb]',
+ 'C14-r4m3': 'unary table listing the same target twice',
+ 'C15-r4m1': 'token attribute containing & < or > (escaped twice)',
+ 'C15-r4m2': 'derivation with more than 10 spans where child ids straddle sp9/sp10 (string sort)',
+ 'C15-r4m3': 'Japanese token carrying word and a different surf',
+ 'C16-r4m1': 'derivation needing exactly the (pruning_size+1)-th best tag',
+ 'C16-r4m2': 'pruning_size >= num_tags with the filter on (fast path skips the threshold)',
+ 'C16-r4m3': 'filter on and a word whose best head probability differs from its best tag probability',
+ 'C17-r4m1': 'second call with the same dictionary object and a reordered category list of equal length',
+ 'C17-r4m2': 'float64 score matrices (filtered copies, caller arrays untouched)',
+ 'C17-r4m3': 'dictionary entry with duplicate categories whose length reaches the number of categories',
+ 'C18-r4m1': 'token that is a bracket or contains < >, auto/conll/ptb rendered first (escaped word written back)',
+ 'C18-r4m2': 'annotated tokens, jigg_xml rendered first (keys renamed and renamed back: order changes)',
+ 'C18-r4m3': 'Japanese tokens carrying word and surf, jigg_xml rendered first',
+ 'C19-r4m1': 'batch containing the failure placeholder rendered as conll',
+ 'C19-r4m2': 'max_step runs out with items on the agenda (empty result list)',
+ 'C19-r4m3': 'batch containing the failure placeholder rendered as auto',
+ 'C20-r4m1': 'bank line whose leaf categories carry {..} annotations',
+ 'C20-r4m2': 'token containing the sequence )(',
+ 'C20-r4m3': 'token that NFC normalisation changes',
+})
+HISTORY.update({
+ 'C01-r4m2': 'NOT caught, by design: which of two exactly tied tags at the beam boundary is admitted is not determined by the property (must/may sets are neutral on ties)',
+ 'C02-r4m1': 'caught by C11 (pairing monitor), not by C02',
+ 'C02-r4m3': 'NOT caught, by design: beta = 0 lies outside the stated range (0,1); with beta 0 a zero-probability tag is not below beta x best',
+ 'C05-r4m2': 'missed at first: a triple with a repeated key added to the alphabet',
+ 'C06-r4m2': 'missed at first: patterns with a variable repeated on one side are now generated and judged for the necessary condition',
+ 'C06-r4m3': 'missed at first: atoms whose triple has the other key set added',
+ 'C07-r4m1': 'missed at first: arbitrary trees may now carry labels that are not reachable from the tag inventory (<B4)',
+ 'C07-r4m2': 'missed at first by C07 (caught by C15): jigg span-offset problems are now reported by C07 too',
+ 'C07-r4m3': 'a mutation defect: caught by C18, not by C07 (C07 renders deep copies)',
+ 'C08-r4m1': 'missed at first: [conj] categories and a token ending in [conj] added',
+ 'C08-r4m3': 'missed at first: head fields flipped on derivable nodes in C08 as well',
+ 'C10-r4m3': 'missed at first: large category tables added to C01 and C10',
+ 'C11-r4m2': 'missed at first: pool calls with more processes than sentences added',
+ 'C11-r4m3': 'missed at first: long-then-wide batch (a 51+ token sentence, then sentences needing tags ranked 23rd-26th) added',
+ 'C13-r4m3': 'missed at first: pickle shard (categories hashed and pickled under another hash seed) added',
+ 'C14-r4m1': 'missed at first: every pair is applied again in reverse order at the end of the shard',
+ 'C17-r4m2': 'missed at first: float64 matrices added',
+ 'C19-r4m2': 'missed at first: empty result lists are violations everywhere; placeholder also taken from an exhausted step budget',
+})
+EXTRA.update({'C02-r4m1': ['C11'], 'C07-r4m3': ['C18'], 'C10-r4m3': ['C01']})
 
 
 def main(only=None):
